@@ -62,3 +62,5 @@ neg "pop helper answers the last name"            r15-3-6 's/filepath\.Join\(s\.
 neg "read helper parses without the bytes it read" r15-3-6 's/return gtfs\.ParseRealtime\(b, /return gtfs.ParseRealtime(b[:0], /' journal/journal.go C19
 neg "id setter keeps a position's own descriptor"  r15-4-1 's/(case \*gtfsrt\.VehiclePosition:\n\t\tif t\.Vehicle != nil \{\n)/$1\t\t\treturn\n/' extensions/nycttrips/nycttrips.go C04 C07 C16
 neg "caller of the stale test asks about assigned trips" r15-4-2 's/e\.opts\.FilterStaleUnassignedTrips && !isAssigned && isStaleTrip/e.opts.FilterStaleUnassignedTrips \&\& isAssigned \&\& isStaleTrip/' extensions/nycttrips/nycttrips.go C16
+neg "pairing helper has no room test"              r15-3-4 's/\t\tif i >= len\(updates\) \{\n\t\t\tbreak\n\t\t\}\n//' journal/journal.go C05
+neg "pairing helper pairs copies of the entries"   r15-3-4 's/\t\tstopTime := &stopTimes\[i\]\n/\t\tentry := stopTimes[i]\n\t\tstopTime := \&entry\n/' journal/journal.go C14
